@@ -57,11 +57,17 @@ def pq_table(f):
         return None
     dn, mn, sn = (f.local_name(i) or 'arg%d' % i for i in (1, 2, 3))
     out = {}
-    for ms in ('neg', 'pos'):
+    for ms in ('neg', 'pos', 'zero'):
         for sv, sname in ((0, 'Left'), (1, 'Right')):
             env = {dn: 'pos', mn: ms, 'disc:%s' % sn: sv}
             outs, forks = absint.explore(f, env)
             out[(ms, sname)] = {absint.sign_of(t, env) for k, t in outs}
+    # a priority that is already negative (the query left the routed path higher up) never recovers
+    for ms in ('neg', 'pos', 'zero'):
+        for sv, sname in ((0, 'Left'), (1, 'Right')):
+            env = {dn: 'neg', mn: ms, 'disc:%s' % sn: sv}
+            outs, forks = absint.explore(f, env)
+            out[('d<0', ms, sname)] = {absint.sign_of(t, env) for k, t in outs}
     return out
 
 
@@ -94,8 +100,14 @@ def r_sign_agreement(ctx, rule='R-SIGN'):
     for f in bodies['pq_distance']:
         tab = pq_table(f)
         key = f.path + '/pq-table'
-        want = {('pos', 'Right'): {'pos'}, ('pos', 'Left'): {'neg'}, ('neg', 'Right'): {'neg'}, ('neg', 'Left'): {'pos'}}
-        ctx.check(tab == want, rule, key, f.loc(), 'for a positive incoming priority: own side stays positive, other side becomes negative',
+        want = {('pos', 'Right'): {'pos'}, ('pos', 'Left'): {'neg'}, ('neg', 'Right'): {'neg'}, ('neg', 'Left'): {'pos'},
+                # a null margin (random split / item on the plane) caps the priority at zero on both sides: the children of
+                # a degenerate plane must not outrank the path of a tree that separates the query by real planes
+                ('zero', 'Left'): {'zero'}, ('zero', 'Right'): {'zero'}}
+        for ms in ('neg', 'pos', 'zero'):
+            for sname in ('Left', 'Right'):
+                want[('d<0', ms, sname)] = {'neg'}
+        ctx.check(tab == want, rule, key, f.loc(), 'for a positive incoming priority: own side stays positive, other side becomes negative, null margin gives zero; a negative priority stays negative',
                   '`%s` gives priorities %s; the side an item was routed to (margin>0: Right, <0: Left) must keep a positive priority and the other side a negative one, so a stored vector is popped first on its own path' % (f.path, {str(k): sorted(map(str, v)) for k, v in (tab or {}).items()}))
 
 
@@ -194,3 +206,57 @@ def r_random_zero(ctx, rule='R-RANDOM-ZERO'):
         good = bool(fills) and all(zero_arg(c) and on_param(c) and byte_level(c) for c in fills) and not recoded \
             and paths.must_pass(rf, 0, rets, [c.bb for c in fills])
         ctx.check(good, rule, 'reset-zeroes', rf.loc(), 'every path of reset fills the vector bytes with 0 (%d zeroing sites)' % len(fills), 'UnalignedVector::reset no longer zeroes the vector')
+
+    # is_zero of every codec really means "every element is zero": a predicate that looks at a part of the vector only
+    # (chunks_exact drops a remainder, skip/take/step_by drop elements) calls a real plane degenerate, and the children of
+    # that split are then assigned at random while queries are still routed by the plane
+    zs = [(p, f) for p, f in F.fns.items() if p.endswith(('UnalignedVectorCodec>::is_zero', 'UnalignedVectorCodec for f32>::is_zero'))]
+    ctx.floor(rule, 'is_zero implementations', len(zs), 2)
+    for p, f in zs:
+        ok, why = whole_vector_zero_predicate(F, f)
+        ctx.check(ok, rule, 'is_zero/' + ('f32' if 'for f32' in p else p.split(' as ')[0].strip('<').split('::')[-1]), f.loc(), 'is_zero = every element (or byte) of the vector is 0',
+                  '`%s` is not "every element of the vector is zero" (%s): a non-zero normal could be treated as a random split' % (p, why))
+
+
+LOSSLESS_ITER = ('::iter', 'IntoIterator::into_iter', 'Iterator::copied', 'Iterator::cloned', 'Iterator::by_ref', 'Deref::deref', '::as_ref',
+                 '::as_slice', '::as_bytes', 'Iterator::rev', 'Iterator::enumerate', 'Iterator::map', 'bytemuck::cast_slice')
+
+
+def whole_vector_zero_predicate(F, z):
+    rets = [strip(t) for b, k, t in paths.ret_assigns(z)]
+    if len(rets) != 1:
+        return False, '%d return values' % len(rets)
+    t = rets[0]
+    neg = False
+    while t[0] == 'unop' and t[1] == 'Not':
+        t = strip(t[2])
+        neg = not neg
+    if t[0] != 'call' or len(t[2]) != 2:
+        return False, 'not an all()/any() over the elements: ' + show(t)[:80]
+    want = 'Eq' if (t[1].endswith('Iterator::all') and not neg) else ('Ne' if (t[1].endswith('Iterator::any') and neg) else None)
+    clo = strip(t[2][1])
+    if want is None or clo[0] != 'closure' or F.fn(clo[1]) is None:
+        return False, 'not all(== 0) / !any(!= 0)'
+    g = F.fn(clo[1])
+    rs = [strip(x) for b, k, x in paths.ret_assigns(g)]
+
+    def is_param(x):
+        r = root(x)
+        return r[0] == 'arg' and r[1] == 2
+    if not (rs and all(r[0] == 'binop' and r[1] == want and is_param(r[2]) and const_eval(r[3]) == 0 for r in rs)):
+        return False, 'the element test is not a comparison of the element with 0'
+    # the receiver iterates the whole vector: a chain of lossless adaptors down to the parameter
+    cur = strip(t[2][0])
+    for _ in range(12):
+        if cur[0] == 'arg' or (cur[0] == 'field' and root(cur)[0] == 'arg'):
+            return True, ''
+        if cur[0] in ('ref', 'deref', 'field'):
+            cur = strip(cur[1])
+            continue
+        if cur[0] == 'call' and cur[2] and cur[1].endswith(LOSSLESS_ITER):
+            if cur[1].endswith('Iterator::map'):
+                return False, 'elements mapped before the test'
+            cur = strip(cur[2][0])
+            continue
+        return False, 'the elements tested come from ' + show(cur)[:80]
+    return False, 'receiver chain too deep'
